@@ -945,7 +945,7 @@ func genPerformInvitePseudoWith(o *Out, r *Rng, i int, f piForce) {
 
 // ---------------------------------------------------------------- HandleSendJoin, room version org.matrix.msc4014
 
-// handshake.sendjoin_pseudo ver cls ev roomID reqEventID origin local senderQ verify store selfok cur
+// handshake.sendjoin_pseudo ver cls ev evType roomID reqEventID origin local senderQ verify store selfok cur
 func execSendJoinPseudo(args []string) string {
 	ver, cls := args[0], args[1]
 	verImpl, verr := gmsl.GetRoomVersion(gmsl.RoomVersion(ver))
@@ -953,6 +953,7 @@ func execSendJoinPseudo(args []string) string {
 		return "err:construct:version"
 	}
 	var raw []byte
+	var parsedJoin gmsl.PDU
 	if cls == "x" {
 		raw = []byte(`{"type":"m.room.member"`)
 	} else {
@@ -962,42 +963,47 @@ func execSendJoinPseudo(args []string) string {
 		if err != nil {
 			return "err:construct:class"
 		}
+		parsedJoin = ev
 		want, _ := parseEvArg(ver, args[2])
 		if want == nil || ev.EventID() != want.EventID() || string(ev.JSON()) != string(want.JSON()) {
 			return "err:construct:reparse"
 		}
+		// the declared event type is the one the accessor reports
+		if ev.Type() != string(unhx(args[3])) {
+			return "err:construct:type"
+		}
 		red, rerr := verImpl.RedactEventJSON(ev.JSON())
-		if (rerr == nil && selfOK(string(ev.SenderID()), red)) != (args[10] == "1") {
+		if (rerr == nil && selfOK(string(ev.SenderID()), red)) != (args[11] == "1") {
 			return "err:construct:selfok"
 		}
 		// the declared answer of the sender lookup must be what the querier gives
-		if args[7] != "err" {
+		if args[8] != "err" {
 			u, err := piQuerier(spec.RoomID{}, ev.SenderID())
 			got := "none"
 			if err == nil {
 				got = "d:" + string(u.Domain())
 			}
-			if got != args[7] {
+			if got != args[8] {
 				return "err:construct:senderQ"
 			}
 		}
 	}
-	roomID, err := spec.NewRoomID(string(unhx(args[3])))
+	roomID, err := spec.NewRoomID(string(unhx(args[4])))
 	if err != nil {
 		return "err:construct:room"
 	}
-	local := args[6]
+	local := args[7]
 	querier := spec.UserIDForSender(piQuerier)
-	if args[7] == "err" {
+	if args[8] == "err" {
 		querier = hsUserQuerier("err")
 	}
 	resp, err := gmsl.HandleSendJoin(gmsl.HandleSendJoinInput{
-		Context: context.Background(), RoomID: *roomID, EventID: string(unhx(args[4])), JoinEvent: raw,
-		RoomVersion: gmsl.RoomVersion(ver), RequestOrigin: spec.ServerName(args[5]), LocalServerName: spec.ServerName(local),
-		KeyID: hsKeyID, PrivateKey: hsLocalKey, Verifier: &hsVerifier{mode: args[8]},
-		MembershipQuerier: &hsMembership{cur: args[11]}, UserIDQuerier: querier,
+		Context: context.Background(), RoomID: *roomID, EventID: string(unhx(args[5])), JoinEvent: raw,
+		RoomVersion: gmsl.RoomVersion(ver), RequestOrigin: spec.ServerName(args[6]), LocalServerName: spec.ServerName(local),
+		KeyID: hsKeyID, PrivateKey: hsLocalKey, Verifier: &hsVerifier{mode: args[9]},
+		MembershipQuerier: hsMembershipFor(args[12], *roomID, parsedJoin), UserIDQuerier: querier,
 		StoreSenderIDFromPublicID: func(ctx context.Context, senderID spec.SenderID, userID string, id spec.RoomID) error {
-			if args[9] == "err" {
+			if args[10] == "err" {
 				return errors.New("store failed (scripted)")
 			}
 			return nil
@@ -1014,12 +1020,35 @@ func execSendJoinPseudo(args []string) string {
 	return "ok:aj=" + aj + sigReport(verImpl, in.JSON(), resp.JoinEvent, local)
 }
 
-func genSendJoinPseudo(o *Out, r *Rng, i int) {
+func genSendJoinPseudo(o *Out, r *Rng, i int) { genSendJoinPseudoFix(o, r, i, hsFix{}) }
+
+// genSendJoinPseudoFixed: every wrong event type and every class of planted local signature, each alone on the
+// otherwise accepting path (see hsWrongTypes / hsForgeClasses in area_handshake.go).
+func genSendJoinPseudoFixed(o *Out, r *Rng) {
+	for _, typ := range hsWrongTypes {
+		genSendJoinPseudoFix(o, r, 1000, hsFix{typ: "t:" + typ, happy: true})
+	}
+	for _, f := range hsForgeClasses {
+		genSendJoinPseudoFix(o, r, 1000, hsFix{forge: f, happy: true})
+	}
+}
+
+func genSendJoinPseudoFix(o *Out, r *Rng, i int, fix hsFix) {
 	ver := piPseudoVer
 	verImpl := gmsl.MustGetRoomVersion(gmsl.RoomVersion(ver))
 	p := 88
 	if r.Chance(25) {
 		p = 60
+	}
+	if fix.happy {
+		p = 100
+	}
+	rare := func(pc int) bool { return !fix.happy && r.Chance(pc) }
+	typ := spec.MRoomMember
+	if strings.HasPrefix(fix.typ, "t:") {
+		typ = fix.typ[2:]
+	} else if rare(8) {
+		typ = Pick(r, hsWrongTypes)
 	}
 	joinerKey := hsKey("p-joiner")
 	joiner := piSID(joinerKey)
@@ -1076,21 +1105,25 @@ func genSendJoinPseudo(o *Out, r *Rng, i int) {
 	case "invalid":
 		content["join_authorised_via_users_server"] = "alice"
 	}
-	if r.Chance(5) {
+	if rare(5) {
 		content["displayname"] = 5
 	}
 	cj, _ := json.Marshal(content)
 	evRoom := pickDev(r, p, "!room:hs1", "!other:hs1")
-	proto := gmsl.ProtoEvent{SenderID: sender, RoomID: evRoom, Type: spec.MRoomMember, StateKey: sk,
+	proto := gmsl.ProtoEvent{SenderID: sender, RoomID: evRoom, Type: typ, StateKey: sk,
 		PrevEvents: []string{"$p"}, AuthEvents: []string{}, Depth: 5, Content: cj}
 	selfCls := pickDev(r, p, "ok", "wrongkey", "unsigned", "corrupt")
 	signKey := joinerKey
 	if selfCls == "wrongkey" {
 		signKey = hsKey("p-other")
 	}
-	cls, evArg, id, selfok, senderQ := "x", "-", "$none", "0", "none"
+	cls, evArg, id, selfok, senderQ, typArg := "x", "-", "$none", "0", "none", "-"
+	forge := fix.forge
+	if forge == "" && rare(6) {
+		forge = Pick(r, hsForgeClasses)
+	}
 	built, err := verImpl.NewEventBuilderFromProtoEvent(&proto).Build(piTime, spec.ServerName(sender), "ed25519:1", signKey)
-	if err == nil && !r.Chance(4) {
+	if err == nil && !rare(4) {
 		raw := built.JSON()
 		var m map[string]json.RawMessage
 		_ = json.Unmarshal(raw, &m)
@@ -1103,7 +1136,16 @@ func genSendJoinPseudo(o *Out, r *Rng, i int) {
 			raw, _ = json.Marshal(m)
 		}
 		if back, err := verImpl.NewEventFromUntrustedJSON(raw); err == nil {
-			cls, id = "o", back.EventID()
+			// a planted entry in the slot the local signature goes to
+			if forge != "" {
+				if f := hsForge(ver, &Ev{PDU: back, ID: back.EventID(), JSON: back.JSON()}, forge, "hs1"); f != nil {
+					back = f.PDU
+					o.Count("sendjoin_pseudo.planted-local-sig." + forge)
+				} else {
+					o.Count("sendjoin_pseudo.planted-local-sig.gen-failed")
+				}
+			}
+			cls, id, typArg = "o", back.EventID(), hx([]byte(typ))
 			evArg = hx([]byte(id)) + ":" + hx(back.JSON())
 			if red, err := verImpl.RedactEventJSON(back.JSON()); err == nil && selfOK(string(back.SenderID()), red) {
 				selfok = "1"
@@ -1113,17 +1155,24 @@ func genSendJoinPseudo(o *Out, r *Rng, i int) {
 			}
 		}
 	}
-	if r.Chance(4) {
+	if rare(4) {
 		senderQ = "err"
 	}
 	reqID := pickDev(r, p, id, "$different")
 	origin := pickDev(r, p, "hs5", "hs2")
 	verify := pickDev(r, p, "good", "bad", "err")
-	store := pickDev(r, 92, "ok", "err")
-	cur := pickDev(r, 75, "m:leave", "m:join", "m:ban", "m:", "m:invite", "err")
-	res := o.Do("sendjoin_pseudo", ver, cls, evArg, hx([]byte("!room:hs1")), hx([]byte(reqID)), origin, "hs1", senderQ, verify, store, selfok, cur)
+	store := pickDev(r, max(p, 92), "ok", "err")
+	pcur := 75
+	if fix.happy {
+		pcur = 100
+	}
+	cur := pickDev(r, pcur, "m:leave", "m:join", "m:ban", "m:", "m:invite", "err")
+	res := o.Do("sendjoin_pseudo", ver, cls, evArg, typArg, hx([]byte("!room:hs1")), hx([]byte(reqID)), origin, "hs1", senderQ, verify, store, selfok, cur)
 	o.Count("sendjoin_pseudo." + strings.SplitN(res, ":sig", 2)[0])
-	if i < 2 {
-		o.Sample("sendjoin_pseudo mapping=" + mcls + " self=" + selfCls + " sk=" + skMode + " -> " + res)
+	if typ != spec.MRoomMember && cls != "x" {
+		o.Count("sendjoin_pseudo.type-not-member." + strings.SplitN(res, ":sig", 2)[0])
+	}
+	if i < 2 || (i == 1000 && fix.typ == "t:x.custom") {
+		o.Sample("sendjoin_pseudo type=" + typ + " planted=" + forge + " mapping=" + mcls + " self=" + selfCls + " sk=" + skMode + " -> " + res)
 	}
 }
